@@ -30,7 +30,7 @@ TReset == /\ Boundary
           /\ old' = [p \in Procs |-> 0] /\ tgt' = [p \in Procs |-> 0] /\ cnt' = [p \in Procs |-> 0]
           /\ rnd' = [c \in Clients |-> Rounds]
           /\ sweepsLeft' = Sweeps /\ ticksLeft' = Ticks /\ expire' = FALSE
-          /\ stopSweep' = FALSE /\ stopTick' = FALSE
+          /\ stopSweep' = FALSE /\ stopTick' = FALSE /\ lateN' = 0
           /\ held' = {} /\ panic' = <<>> /\ stale' = ""
           /\ l' = l /\ tid' = Trace[l].t
 
